@@ -108,7 +108,21 @@ def decCase : T → Option Case
     pure { ins, vds, sup, decl, given, hs }
   | _ => none
 
+/-- an input object whose type has (or has not) a Go struct registered; obs: (obs resolverCalled errorNamesMember).
+The model is the property: an undeclared member is refused before the resolver, and named. -/
+def handleStruct (c impl : T) : Option String :=
+  match c with
+  | .node "c04s" [_, _, unk] =>
+    (match unk.asBool with
+     | some true => some (if impl == T.node "obs" [T.ofBool false, T.ofBool true] then "ok" else "mismatch spec-bad (obs false true)")
+     | some false => some (if impl == T.node "obs" [T.ofBool true, T.ofBool false] then "ok" else "mismatch spec-bad (obs true false)")
+     | none => some "bad-op")
+  | _ => none
+
 def handle (tb : Tables) (c impl : T) : String :=
+  match handleStruct c impl with
+  | some v => v
+  | none =>
   match decCase c with
   | none => "bad-op"
   | some ⟨ins, vds, sup, decl, given, hs⟩ =>
